@@ -90,8 +90,30 @@ def limitOf (lim : Limits) (ctor : String) : Int :=
   | "copy_array" | "sort_array" | "map_array" | "filter_array" | "unique_array" | "array_sub" | "array_and"
   | "keys" | "values" => lim.maxArray
   | "allocate_buffer" | "add_buffer" => lim.maxBuffer
-  | "map_insert" | "map_aggregate" | "map_add" | "copy_mapping" | "allocate_mapping" => lim.maxMapping
+  | "map_insert" | "map_aggregate" | "map_add" | "copy_mapping" | "allocate_mapping" | "filter_mapping" | "map_mapping"
+    => lim.maxMapping
   | _ => lim.maxString
+
+/-- result of a mapping operation sequence, `"<flags>:<sizeof>/<nodes>"`: what sizeof () reports is what the mapping
+    holds, and that is within the limit (other returned values are not judged) -/
+def judgeMapSeq (lim : Limits) (v : String) : List String :=
+  match (v.replace "\"" "").splitOn ":" with
+  | [_, cn] =>
+    (match cn.splitOn "/" with
+     | [c, n] =>
+       (match c.toInt?, n.toInt? with
+        | some c, some n =>
+          (if c != n then [s!"map-count-mismatch sizeof={c} nodes={n}"] else []) ++
+          (if n > lim.maxMapping then [s!"size-exceeded ctor=map_seq size={n} limit={lim.maxMapping}"] else [])
+        | _, _ => [])
+     | _ => [])
+  | _ => []
+
+/-- an evaluation that returned normally although its program makes more code-less callbacks than the budget -/
+def judgeCallbacks (lim : Limits) : List String :=
+  if lim.cost > 0 ∧ (lim.noCodeCallbacks : Int) > lim.cost + handlerAllowance then
+    [s!"eval-exceeded uncharged-callbacks callbacks={lim.noCodeCallbacks} budget={lim.cost}"]
+  else []
 
 structure JState where
   lim : Limits := {}
@@ -108,12 +130,10 @@ def judgeLine (s : JState) (line : String) : JState :=
     match kindOfName k with
     | some k => s.flag (judgeEv [.afterCatch k])
     | none => s.flag [s!"malformed {line}"]
-  | "r" :: "ret" :: _ =>
-    let s := { s with pendingEv := s.pendingEv - 1 }
-    -- callbacks are work even when they run no LPC code: more of them than the budget cannot complete
-    if s.lim.cost > 0 ∧ (s.lim.noCodeCallbacks : Int) > s.lim.cost + handlerAllowance then
-      s.flag [s!"eval-exceeded uncharged-callbacks callbacks={s.lim.noCodeCallbacks} budget={s.lim.cost}"]
-    else s
+  | ["r", "ret", v] =>
+    let s1 : JState := { s with pendingEv := s.pendingEv - 1 }
+    s1.flag (judgeMapSeq s.lim v ++ judgeCallbacks s.lim)
+  | "r" :: "ret" :: _ => { s with pendingEv := s.pendingEv - 1 }
   | "r" :: "err" :: _ => { s with pendingEv := s.pendingEv - 1 }
   | "obs" :: rest => s.flag (judgeObs s.lim rest)
   | ["sz", "err"] => { s with pendingSz := s.pendingSz.drop 1 }
